@@ -148,6 +148,16 @@ CHECKS = {
         "Trusted: own binning rule and per-mode sums (numpy). Bounds on N. Empty bins under 'average' (mean of an empty set) are outside the property and masked.",
         "DESIGN.md §4 C17",
     ),
+    "C18": (
+        "bounded exhaustive exploration of the option product: every generator x D x odd/even N x keys x all normalisation-flag combinations x parameter lattices x wrapper nestings of depth <= 2",
+        "Every public generator and IC class is drawn for all 8 (zero_mean, std_one, max_one) combinations (valid: realised exactly; invalid: ValueError), "
+        "offset/cutoff/limit/scale/exponent lattices, D=1..3, odd and even N and several keys; each draw is checked for shape (one channel per "
+        "generated field), finiteness, bit-identical repetition with the same key, exact statistics, Fourier support (own FFT), power-law / diffusion "
+        "shaping of the white noise of the same key, clamping limits reached, scale factors, member-wise key splitting of multi-channel wrappers, "
+        "agreement of function form and sampled form, and explicit formulas for the deterministic IC classes.",
+        "Trusted: numpy statistics/FFT and the re-implemented formulas. Contract is per draw (no distributional claims). Degenerate draws with zero variance are skipped.",
+        "DESIGN.md §4 C18",
+    ),
     "C19": (
         "bounded exhaustive exploration of a stiffness lattice x ETDRK orders x nonlinear terms and of every public stepper x orders, executed in two separate precision sessions whose result tables are joined",
         "Each work unit spawns a default (float32) and an x64 interpreter. Both enumerate ETDRK orders 0-4 on z=lambda*dt from 0 down to -1e15 (real axis, "
